@@ -36,8 +36,11 @@ import PV.Generated.Lex
 
   Not covered by theorems (correspondence and oracle only): `Min`/`Max`, common
   subexpressions, wildcards, `inf`/`nan`, strings; a conditional as the LAST argument / element
-  / slice part (harmless, but the local condition does not distinguish the last position); "the same value in every environment" (it
-  follows from tree equality modulo flattening only through the evaluation semantics).
+  / slice part (harmless, but the local condition does not distinguish the last position).
+
+  "The same value in every environment" is proved in `PV/Properties/C06Value.lean`
+  (`flatten_same_value`, `roundtrip_value_partial`, …: tree equality modulo flattening implies
+  equal denotations `den`, `PV/Proofs/FlattenDen.lean`).
 -/
 namespace PV.C06
 open PV PV.Syntax
